@@ -35,7 +35,7 @@ fn drive<E: Engine>(args: &[String]) -> i32 {
         for run in from..to {
             let mut rng = simlib::prng::Rng::split(seed, E::name(), run);
             let case = E::gen(&mut rng, tier);
-            let _ = writeln!(out, "{}", serde_json::json!({"run": run, "case": E::to_json(&case)}));
+            let _ = writeln!(out, "{}", serde_json::json!({"run": run, "case": E::to_json(&case), "tags": E::tags(&case)}));
         }
         return 0;
     }
@@ -83,6 +83,10 @@ fn trace_main(args: &[String]) -> i32 {
 
 fn main() {
     install_panic_hook();
+    if let Ok(j) = std::env::var("VERIF_ALLOC_JUNK") {
+        // junk-fill fresh memory, poison freed memory, always-moving realloc for the whole process
+        simlib::seams::set_alloc_junk(j.parse().unwrap_or(0xA5));
+    }
     let args: Vec<String> = std::env::args().collect();
     let code = match args.get(1).map(String::as_str) {
         Some("c01") => drive::<C01Engine>(&args),
@@ -91,6 +95,10 @@ fn main() {
         Some("c05r") => drive::<C05Real>(&args),
         Some("c05a") => drive::<C05Adv>(&args),
         Some("trace") => trace_main(&args),
+        Some("c11d") => drive::<simlib::io::C11DecodeEngine>(&args),
+        Some("c20") => drive::<simlib::conc::C20Engine>(&args),
+        #[cfg(rosu_pp_verif)]
+        Some("c11s") => drive::<simlib::strainsvec::StrainsVecEngine>(&args),
         Some("c02") => drive::<C02Engine>(&args),
         Some("c03") => drive::<C03Engine>(&args),
         Some("c15") => drive::<C15Engine>(&args),
